@@ -485,60 +485,131 @@ func fieldOfParam(v ssa.Value, fn *ssa.Function) [2]string {
 	return [2]string{"", ""}
 }
 
-// checkReloopAfterLoad: from every call of loadChunk in NextInto, no return of a message is reachable without
-// passing through the header of the innermost enclosing loop.
-func checkReloopAfterLoad(p *Program, r *Result, ni *ssa.Function) {
-	fname := funcName(ni)
-	calls := callsIn(ni, func(ci ssa.CallInstruction) bool { return calleeRepoName(ci) == "mcap.indexedMessageIterator.loadChunk" })
-	if len(calls) == 0 {
-		r.undecided("C03.e", fname, "loadChunk call", p.pos(ni.Pos()), "no call of loadChunk in NextInto")
-		return
-	}
-	for _, ci := range calls {
-		blk := ci.Block()
-		// innermost loop header: a dominator of blk that has a predecessor it dominates (back edge) and from which blk is reachable
-		var header *ssa.BasicBlock
-		for d := blk; d != nil; d = d.Idom() {
-			for _, pr := range d.Preds {
-				if d.Dominates(pr) {
-					header = d
-				}
-			}
-			if header != nil {
-				break
+// escapesWithoutReloop: from the call ci, a "success exit" of fn (for NextInto: a return that yields a message; for a
+// helper: a return that is not on the non-nil branch of an error test) is reachable without passing the header of
+// the innermost loop enclosing ci. ok=false when ci sits in no loop at all.
+func escapesWithoutReloop(fn *ssa.Function, ci ssa.CallInstruction, isYield func(*ssa.Return) bool) (escapes, inLoop bool) {
+	blk := ci.Block()
+	var header *ssa.BasicBlock
+	for d := blk; d != nil; d = d.Idom() {
+		for _, pr := range d.Preds {
+			if d.Dominates(pr) {
+				header = d
 			}
 		}
-		pos := p.pos(ci.Pos())
-		if header == nil {
-			r.violated("C03.e", fname, "loadChunk call outside the yield loop", pos, "chunk loads must happen inside the yield loop so that the load condition is re-evaluated")
+		if header != nil {
+			break
+		}
+	}
+	seen := map[*ssa.BasicBlock]bool{}
+	if header != nil {
+		seen[header] = true
+	}
+	var stack []*ssa.BasicBlock
+	stack = append(stack, blk.Succs...)
+	if ret, ok := blk.Instrs[len(blk.Instrs)-1].(*ssa.Return); ok && isYield(ret) {
+		return true, header != nil
+	}
+	for len(stack) > 0 {
+		b := stack[len(stack)-1]
+		stack = stack[:len(stack)-1]
+		if seen[b] {
 			continue
 		}
-		// search forward from the call avoiding header
-		seen := map[*ssa.BasicBlock]bool{header: true}
-		var stack []*ssa.BasicBlock
-		stack = append(stack, blk.Succs...)
-		yieldReached := false
-		// also the rest of blk itself cannot contain a yield (returns end blocks)
-		for len(stack) > 0 {
-			b := stack[len(stack)-1]
-			stack = stack[:len(stack)-1]
-			if seen[b] {
-				continue
+		seen[b] = true
+		if ret, ok := b.Instrs[len(b.Instrs)-1].(*ssa.Return); ok {
+			if isYield(ret) {
+				return true, header != nil
 			}
-			seen[b] = true
-			if ret, ok := b.Instrs[len(b.Instrs)-1].(*ssa.Return); ok {
-				if len(ret.Results) == 4 && !isNilConst(ret.Results[2]) {
-					yieldReached = true
-				}
-				continue
-			}
-			stack = append(stack, b.Succs...)
+			continue
 		}
-		if yieldReached {
-			r.violated("C03.e", fname, "re-evaluation of the load trigger after loadChunk", pos,
+		stack = append(stack, b.Succs...)
+	}
+	return false, header != nil
+}
+
+// loadSites: calls in fn that may load a chunk and come back normally without the load condition having been
+// re-evaluated: direct calls of loadChunk, and calls of helpers in which a loadChunk (or such a helper) call can reach a
+// normal return without passing the head of a loop that encloses it.
+func loadSites(p *Program, fn *ssa.Function, depth int, memo map[*ssa.Function]bool) []ssa.CallInstruction {
+	var out []ssa.CallInstruction
+	for _, ci := range callsIn(fn, func(ssa.CallInstruction) bool { return true }) {
+		f := ci.Common().StaticCallee()
+		if f == nil || !p.isRepoFunc(f) {
+			continue
+		}
+		if funcName(f) == "mcap.indexedMessageIterator.loadChunk" {
+			out = append(out, ci)
+			continue
+		}
+		if depth <= 0 || f.Blocks == nil || p.funcPkgPath(f) != pkgMcap {
+			continue
+		}
+		leaky, done := memo[f]
+		if !done {
+			memo[f] = false
+			for _, inner := range loadSites(p, f, depth-1, memo) {
+				esc, _ := escapesWithoutReloop(f, inner, func(ret *ssa.Return) bool {
+					n := len(ret.Results)
+					if n == 0 {
+						return true
+					}
+					e := ret.Results[n-1]
+					if !types.Identical(e.Type(), types.Universe.Lookup("error").Type()) {
+						return true
+					}
+					return isNilConst(e) || !errKnownNonNil(ret, e)
+				})
+				if esc {
+					leaky = true
+				}
+			}
+			memo[f] = leaky
+		}
+		if leaky {
+			out = append(out, ci)
+		}
+	}
+	return out
+}
+
+// checkReloopAfterLoad: from every chunk load in NextInto (a call of loadChunk, or of a helper that loads a chunk and
+// returns without re-evaluating the load condition itself), no return of a message is reachable without passing
+// through the header of the innermost enclosing loop.
+func checkReloopAfterLoad(p *Program, r *Result, ni *ssa.Function) {
+	checkReloopAfterLoadAs(p, r, ni, "C03.e")
+}
+
+func checkReloopAfterLoadAs(p *Program, r *Result, ni *ssa.Function, rule string) {
+	fname := funcName(ni)
+	calls := loadSites(p, ni, 3, map[*ssa.Function]bool{})
+	if len(calls) == 0 {
+		r.undecided(rule, fname, "loadChunk call", p.pos(ni.Pos()), "no chunk load reachable from NextInto")
+		return
+	}
+	seen := map[string]int{}
+	for _, ci := range calls {
+		pos := p.pos(ci.Pos())
+		what := "loadChunk"
+		if n := calleeRepoName(ci); n != "mcap.indexedMessageIterator.loadChunk" {
+			what = strings.TrimPrefix(n, "mcap.indexedMessageIterator.")
+		}
+		construct := "re-evaluation of the load trigger after " + what
+		seen[construct]++
+		if k := seen[construct]; k > 1 && what != "loadChunk" {
+			construct += fmt.Sprintf("#%d", k-1)
+		}
+		esc, inLoop := escapesWithoutReloop(ni, ci, func(ret *ssa.Return) bool {
+			return len(ret.Results) == 4 && !isNilConst(ret.Results[2])
+		})
+		switch {
+		case !inLoop:
+			r.violated(rule, fname, what+" call outside the yield loop", pos, "chunk loads must happen inside the yield loop so that the load condition is re-evaluated")
+		case esc:
+			r.violated(rule, fname, construct, pos,
 				"after loading a chunk a message can be yielded without returning to the loop head: if the next chunk also starts before the new head message it is not loaded in time and messages come out of order")
-		} else {
-			r.held("C03.e", fname, "re-evaluation of the load trigger after loadChunk", pos, "every path from the load to a yield passes the loop head")
+		default:
+			r.held(rule, fname, construct, pos, "every path from the load to a yield passes the loop head")
 		}
 	}
 }
